@@ -11,12 +11,12 @@ verus! {
 //@ include: prelude.rs
 
 //@ extract: impl PointerValue / fn slice
-//@   fragment: `let left = left.unwrap_or_default();` .. `let base_addr = (ptr as usize).checked_add(deref_size.checked_mul(left)?)?;`
+//@   fragment: `let left = left.unwrap_or_default();` .. `^let raw_data`
 //@   splice: F_addr
 //@   rewrite W_ptr: `(ptr as usize)` => `ptr`
 //@ end
 //@ extract: impl PointerValue / fn slice
-//@   fragment: `deref_size.checked_mul(count)?` .. `deref_size.checked_mul(count)?`
+//@   fragment: `^base_addr,` .. `^))?;`
 //@   splice: F_count
 //@ end
 
